@@ -1125,6 +1125,28 @@ class Tr:
                 if bt != 'lit': rt = bt
                 out.append(f'| {lp} => {b}')
             return f'(match {s} with ' + ' '.join(out) + ')', rt
+        if isinstance(t, tuple) and t[0] == 'option':
+            it = t[1]
+            en = lean_struct(it[1]) if isinstance(it, tuple) and it[0] == 'struct' and it[1] in self.it.enums else None
+            out = []; rt = 'lit'
+            for pat, guard, body in arms:
+                if guard: raise TranslateError('match guard on Option')
+                env2 = self.fork(env)
+                if pat[0] == 'ppath' and pat[1] == ['None']: lp = 'none'
+                elif pat[0] == 'pwild': lp = '_'
+                elif pat[0] == 'pctor' and pat[1] == ['Some'] and len(pat[2]) == 1:
+                    sp = pat[2][0]
+                    if sp[0] == 'pbind':
+                        env2['vars'][sp[1]] = (sp[1], it); lp = f'some {sp[1]}'
+                    elif sp[0] == 'pwild': lp = 'some _'
+                    elif en and sp[0] == 'ppath': lp = f'some {en}.{sp[1][-1]}'
+                    elif en and sp[0] == 'por' and all(x[0] == 'ppath' for x in sp[1]): lp = ' | '.join(f'some {en}.{x[1][-1]}' for x in sp[1])
+                    else: raise TranslateError('pattern inside Some(..)')
+                else: raise TranslateError('Option pattern')
+                b, bt = self.ex(body, env2, expect)
+                if bt != 'lit': rt = bt
+                out.append(f'| {lp} => {b}')
+            return f'(match {s} with ' + ' '.join(out) + ')', rt
         if t in INT_TYPES:
             # if-chain, first match wins
             res = None; rt = 'lit'; chain = []
